@@ -264,7 +264,7 @@ func loadEngine(repo, verifDir string, tier int, verbose bool) *Engine {
 					if !strings.HasPrefix(c.Text, "//verif:harness") {
 						continue
 					}
-					h := &HarnessSpec{Name: fd.Name.Name, Pkg: pk.PkgPath, Fn: fn, Quick: 1, Thorough: 1, Steps: 50_000_000, PathSteps: 6_000_000, Timeout: 600}
+					h := &HarnessSpec{Name: fd.Name.Name, Pkg: pk.PkgPath, Fn: fn, Quick: 1, Thorough: 1, Steps: 50_000_000, PathSteps: 20_000_000, Timeout: 600}
 					for _, m := range directiveRe.FindAllStringSubmatch(c.Text, -1) {
 						switch m[1] {
 						case "prop":
